@@ -36,14 +36,14 @@ def NOK (isServer : Bool) (n : String) (acc : List Expect) (W : Option Trace) (O
 /-- nothing that `n` can see changes -/
 theorem NOK_stable {isServer : Bool} {n : String} {acc : List Expect} {W : Option Trace} {O : List Trace}
     (φ : Expect → Expect) (h : NOK isServer n acc W O)
-    (hname : ∀ e ∈ acc, (φ e).name = e.name) (hsup : ∀ e ∈ acc, (φ e).superseded = e.superseded)
+    (hname : ∀ e ∈ acc, (φ e).name = e.name) (hsup : ∀ e ∈ acc, e.name = n → (φ e).superseded = e.superseded)
     (hopen : ∀ e ∈ acc, e.name = n → (φ e).isOpen = e.isOpen)
     (hclosed : ∀ e ∈ acc, e.name = n → e.isOpen = false → (φ e).core = e.core ∧ (φ e).held = e.held) :
     NOK isServer n (acc.map φ) W O := by
   refine ⟨fun e' he' hn hs => ?_, fun hall => ?_⟩
   · obtain ⟨e, he, rfl⟩ := List.mem_map.mp he'
     have hen : e.name = n := by rw [← hname e he]; exact hn
-    have hes : e.superseded = false := by rw [← hsup e he]; exact hs
+    have hes : e.superseded = false := by rw [← hsup e he hen]; exact hs
     have h1 := h.1 e he hen hes
     have ho := hopen e he hen
     refine ⟨fun hx => h1.1 (by rw [← ho]; exact hx), fun hx hh => ?_, fun hx hh => ?_⟩
@@ -56,7 +56,7 @@ theorem NOK_stable {isServer : Bool} {n : String} {acc : List Expect} {W : Optio
   · apply h.2
     intro e he hen
     have := hall (φ e) (List.mem_map_of_mem he) (by rw [hname e he]; exact hen)
-    rw [hsup e he] at this; exact this
+    rw [hsup e he hen] at this; exact this
 
 theorem held_iff (e : Expect) :
     e.held = (!e.isOpen && (e.ending.err e.id).retryable && !e.flushedAfter && !e.superseded) := rfl
